@@ -20,6 +20,7 @@ var bigP = new(big.Int).SetUint64(glP)
 
 // HintEvent is what the monitors see of one NewHint call.
 type HintEvent struct {
+	Stack   [24]uintptr // return PCs of the call (for grouping identical call chains)
 	Name    string // MulAddHint, ReduceHint, InverseHint, SplitLimbsHint, nBits, ...
 	Site    string // static site: innermost repository frames
 	Seq     uint64 // dynamic sequence number within the run
@@ -103,7 +104,7 @@ func (e *Engine) NewHint(f solver.Hint, nbOutputs int, inputs ...frontend.Variab
 	}
 	needSite := e.opt.OnHint != nil || e.sh != nil || (e.opt.Policy != nil && e.opt.Policy.NeedSite())
 	if needSite {
-		ev.Site = e.hintSite()
+		ev.Site, ev.Stack = e.hintSite()
 	}
 	// honest execution
 	honest := make([]*big.Int, nbOutputs)
@@ -143,6 +144,9 @@ func (e *Engine) NewHint(f solver.Hint, nbOutputs int, inputs ...frontend.Variab
 			ev.Outputs = outs
 			ev.Subst = true
 			e.st.HintSubst++
+			if e.scope == nil {
+				e.scope = trimToRepo(captureStack(2))
+			}
 		}
 	}
 	res := make([]frontend.Variable, nbOutputs)
@@ -222,15 +226,15 @@ func totalHint(name string, in []*big.Int, nb int) ([]*big.Int, bool) {
 }
 
 // site cache: pc stack -> string
-type pcKey [12]uintptr
+type pcKey [24]uintptr
 
 var siteCache sync.Map
 
-func (e *Engine) hintSite() string {
+func (e *Engine) hintSite() (string, [24]uintptr) {
 	var k pcKey
 	runtime.Callers(3, k[:])
 	if s, ok := siteCache.Load(k); ok {
-		return s.(string)
+		return s.(string), k
 	}
 	frames := runtime.CallersFrames(k[:])
 	var parts []string
@@ -251,7 +255,7 @@ func (e *Engine) hintSite() string {
 		s = "(no repo frame)"
 	}
 	siteCache.Store(k, s)
-	return s
+	return s, k
 }
 
 var fastCheckCounter uint64
@@ -360,4 +364,14 @@ func glInv(a uint64) uint64 {
 		e >>= 1
 	}
 	return res
+}
+
+// trimToRepo drops the innermost frames until the first repository function.
+func trimToRepo(pcs []uintptr) []uintptr {
+	for i, pc := range pcs {
+		if f := runtime.FuncForPC(pc - 1); f != nil && strings.Contains(f.Name(), repoMarker) {
+			return pcs[i:]
+		}
+	}
+	return pcs
 }
